@@ -3,7 +3,13 @@
 
    A genome is: allow_mutations, the approval callback (on_mutation, a pure
    function of the proposed change: gene, original value, new value, reason),
-   the gene table, the mutation log, generation and parent hash.  The two
+   the gene table, the mutation log, generation and parent hash.
+   allow_mutations, on_mutation and mutation_rate are plain public attributes
+   of the Python object: they are fields of the state here, every method reads
+   the field of the state it is called in, and their ASSIGNMENT on a live genome
+   is an operation of the history language (OSetAllow / OSetCb / OSetRate).
+   The log is an unbounded list: histories may be arbitrarily long, and the
+   generated cases write "k calls in a row" compactly ([rop], [expand]).  The two
    Python dicts _genes and _expression always have the same keys in the same
    order (add_gene writes both, nothing deletes), so they are one association
    list here whose entries carry the gene and its current expression level;
@@ -139,6 +145,13 @@ Definition set_tbl (G : genome) (t : table) : genome :=
   mkGenome (allow G) (cb G) t (mlog G) (generation G) (parent G) (mrate G).
 Definition add_log (G : genome) (m : mrec) : genome :=
   mkGenome (allow G) (cb G) (tbl G) (mlog G ++ [m]) (generation G) (parent G) (mrate G).
+
+Definition set_allow (G : genome) (b : bool) : genome :=
+  mkGenome b (cb G) (tbl G) (mlog G) (generation G) (parent G) (mrate G).
+Definition set_cb (G : genome) (c : option oracle) : genome :=
+  mkGenome (allow G) c (tbl G) (mlog G) (generation G) (parent G) (mrate G).
+Definition set_rate (G : genome) (k : Z) : genome :=
+  mkGenome (allow G) (cb G) (tbl G) (mlog G) (generation G) (parent G) k.
 
 Definition stored (G : genome) (n : Z) : option val :=
   match lookup (tbl G) n with Some e => Some (value e) | None => None end.
@@ -356,13 +369,22 @@ Inductive gop :=
 | OSilence (n : Z)
 | OActivate (n : Z)
 | OReplicate (muts : list (Z * val)) (inh : bool) (ds : list Z)   (* ds: what random.random() returns, in 64ths *)
-| OExpress (ctx : list Z).
+| OExpress (ctx : list Z)
+(* the configuration attributes are plain public attributes of a live Genome:
+   they can be ASSIGNED between calls.  Every method reads them when it runs
+   (mutate / add_gene: allow_mutations and on_mutation; replicate: all three,
+   handing the values of that moment to the child), so the authorisation that
+   applies to a call is the configuration at the time of the call. *)
+| OSetAllow (b : bool)                 (* genome.allow_mutations = b *)
+| OSetCb (c : option oracle)           (* genome.on_mutation = c  (None: no callback) *)
+| OSetRate (k : Z).                    (* genome.mutation_rate = k/64 *)
 
 Inductive out :=
 | RetBool (b : bool)
 | RetChild (i : nat)
 | RetConfig (c : list (Z * val))
-| RetBadTarget.
+| RetBadTarget
+| RetNothing.                          (* an attribute assignment returns nothing *)
 
 (* effect of an operation on the genome it is called on *)
 Definition g_step (G : genome) (o : gop) : genome * bool :=
@@ -375,7 +397,14 @@ Definition g_step (G : genome) (o : gop) : genome * bool :=
   | OActivate n => g_set_level G n Normal
   | OReplicate _ _ _ => (G, true)
   | OExpress _ => (G, true)
+  | OSetAllow b => (set_allow G b, true)
+  | OSetCb c => (set_cb G c, true)
+  | OSetRate k => (set_rate G k, true)
   end.
+
+(* an assignment of a configuration attribute *)
+Definition is_config (o : gop) : bool :=
+  match o with OSetAllow _ | OSetCb _ | OSetRate _ => true | _ => false end.
 
 Definition g_run (G : genome) (ops : list gop) : genome :=
   fold_left (fun G o => fst (g_step G o)) ops G.
@@ -405,6 +434,7 @@ Definition step (W : world) (io : op) : world * out :=
        match o with
        | OReplicate _ _ _ => RetChild (length W)
        | OExpress ctx => RetConfig (g_express G ctx)
+       | OSetAllow _ | OSetCb _ | OSetRate _ => RetNothing
        | _ => RetBool (snd (g_step G o))
        end)
   end.
@@ -524,7 +554,9 @@ Definition intern (t : htable) (k : list (Z * val)) : htable * Z :=
   end.
 
 (* get_statistics(): hash, parent_hash, generation, total_genes,
-   mutations_count, approved_mutations; then the expression levels *)
+   mutations_count, approved_mutations; the configuration attributes
+   allow_mutations and mutation_rate (64ths) as they are now; then the
+   expression levels *)
 Definition light_row (t : htable) (G : genome) : htable * list Z :=
   let '(t1, h) := intern t (ghash G) in
   let '(t2, ph) := match parent G with
@@ -532,7 +564,7 @@ Definition light_row (t : htable) (G : genome) : htable * list Z :=
                    | Some k => intern t1 k
                    end in
   (t2, [h; ph; generation G; Z.of_nat (length (tbl G)); Z.of_nat (length (mlog G));
-        Z.of_nat (length (filter m_approved (mlog G)))]
+        Z.of_nat (length (filter m_approved (mlog G))); b2z (allow G); mrate G]
        ++ map (fun e => level_code (e_level e)) (tbl G)).
 
 Fixpoint light_rows (t : htable) (W : world) : htable * list (list Z) :=
@@ -550,25 +582,56 @@ Definition out_row (o : out) : list Z :=
   | RetChild i => [1; Z.of_nat i]
   | RetConfig c => 2 :: kv_flat c
   | RetBadTarget => [3]
+  | RetNothing => [4]
   end.
 
-Fixpoint run_obs (t : htable) (W : world) (ops : list op) : list (list Z) :=
+(* ---- long histories ------------------------------------------------------
+   A history element of a case is (genome index, k, operation): the operation
+   is called k times in a row on that genome (k = 1: an ordinary call; k = 0:
+   no call).  This is notation for the k-fold repetition in the history
+   language [list op] of the theorems ([expand]); it keeps a history of
+   hundreds of calls small to write down.  The first k-1 calls of a repetition
+   are observed compactly (return value, statistics row of the genome called),
+   the last one like every ordinary call; the complete state, whole log
+   included, of every genome is observed at the end of the case. *)
+Definition rop := (nat * nat * gop)%type.
+
+Definition expand (rops : list rop) : list op :=
+  flat_map (fun r => let '(i, k, o) := r in repeat (i, o) k) rops.
+
+Fixpoint rep_compact (t : htable) (W : world) (i : nat) (o : gop) (k : nat)
+  : htable * world * list (list Z) :=
+  match k with
+  | O => (t, W, [])
+  | S k' =>
+      let '(W1, r) := step W (i, o) in
+      let '(t1, lr) := match nth_error W1 i with
+                       | Some G' => light_row t G'
+                       | None => (t, [])
+                       end in
+      let '(t2, W2, rows) := rep_compact t1 W1 i o k' in
+      (t2, W2, out_row r :: lr :: rows)
+  end.
+
+Fixpoint run_obs (t : htable) (W : world) (ops : list rop) : list (list Z) :=
   match ops with
   | [] => flat_map (fun G => detail_rows G 0) W
-  | (i, o) :: rest =>
-      let '(W', r) := step W (i, o) in
-      let before := match nth_error W i with Some G => length (mlog G) | None => O end in
+  | (_, O, _) :: rest => run_obs t W rest
+  | (i, S k, o) :: rest =>
+      let '(t0, W0, pre) := rep_compact t W i o k in
+      let '(W', r) := step W0 (i, o) in
+      let before := match nth_error W0 i with Some G => length (mlog G) | None => O end in
       let acted := match nth_error W' i with Some G' => detail_rows G' before | None => [] end in
       let child := match r with
                    | RetChild j => match nth_error W' j with Some C => detail_rows C 0 | None => [] end
                    | _ => []
                    end in
-      let '(t', lr) := light_rows t W' in
-      (out_row r :: acted ++ child ++ lr) ++ run_obs t' W' rest
+      let '(t', lr) := light_rows t0 W' in
+      (pre ++ out_row r :: acted ++ child ++ lr) ++ run_obs t' W' rest
   end.
 
 (* allow_mutations, callback (None = no on_mutation), mutation_rate (64ths), initial genes, operations *)
-Definition case := (bool * option (list orule) * Z * list gene * list op)%type.
+Definition case := (bool * option (list orule) * Z * list gene * list rop)%type.
 
 Definition run_case (c : case) : list (list Z) :=
   let '(a, orc, rate, genes, ops) := c in
